@@ -152,6 +152,9 @@ Example C02_by_name_forms_example :
   gen_lingo (reify_e en 0 e) 0 = "the width of x(the frameLabel, s)" /\
   gen_lingo (reify_e en 0 (ETheN 3)) 0 = "the ink" /\
   parse_expr 20 (strip (pp_tok en e)) = Some (e, []) /\
+  (* a key / mouse / date property (EKey: empty argument list, then 66 n) *)
+  compile_e (EKey 1) = [Byte.x43; Byte.x00; Byte.x66; Byte.x01] /\
+  gen_lingo (reify_e en 0 (EKey 1)) 0 = "the frameLabel" /\
   (* ... and written: set the <name> = ... (target TByName, opcode 60 n, the property-write class under its second opcode) *)
   compile_s (SSet (TByName 3) (EInt 1)) = [Byte.x41; Byte.x01; Byte.x60; Byte.x03] /\
   gen_lingo (reify_s en [] 0 (SSet (TByName 3) (EInt 1))) 1 = ("    set the ink = 1" ++ "
